@@ -73,7 +73,8 @@ func (h *storeHistory) Describe() []string {
 	return l
 }
 
-var badIDs = []string{"0", "999999", "20000101T000000-9999", "latestx", "", "-1", "1e3", "01"}
+// ids no store issues (the simulated clock starts in 2000; a file-store id of 1999 cannot occur)
+var badIDs = []string{"0", "999999", "19990101T000000-9999", "latestx", "", "-1", "1e3", "01"}
 
 var subjects = []string{"hello", "", "Re: [x] ünï©ode ✓", "a\tb", strings.Repeat("S", 300), "=?utf-8?q?enc?="}
 
@@ -160,13 +161,12 @@ func newStoreRig(c *Ctx, cfg StoreCfg) *storeRig {
 }
 
 func (r *storeRig) idFor(o SOp) (id string, live bool) {
-	if o.Ref < 0 {
-		return o.BadID, false
+	if o.Ref < 0 || len(r.ids[o.Mailbox]) == 0 {
+		// an id the generator made up; should the store ever have issued exactly that
+		// id in this mailbox, it is an ordinary id
+		return o.BadID, r.model.Get(o.Mailbox, o.BadID) != nil
 	}
 	l := r.ids[o.Mailbox]
-	if len(l) == 0 {
-		return o.BadID, false
-	}
 	id = l[o.Ref%len(l)]
 	return id, r.model.Get(o.Mailbox, id) != nil
 }
